@@ -67,6 +67,8 @@ type pathInfo struct {
 	top   bool
 	fact  string
 	ptrnum bool // pointer to a number: only used inside arithmetic, comparisons and as a destination
+	iface  bool // element of a Go []interface{}: read like ptrnum, selector stays literal
+	wonly  bool // never read (the engine offers no string functions on an interface element): destination only
 }
 
 // G is the generator state for one program.
@@ -81,6 +83,7 @@ type G struct {
 	newKeys bool
 	usedCounted map[string]bool
 	mutN int
+	allowWonly bool
 }
 
 func lit(i int64) *grl.Expr { return grl.LitInt(i) }
@@ -127,6 +130,15 @@ func (g *G) buildPaths() {
 			add(grl.P(f+".M").Idx(grl.LitStr(k)), grl.TInt, true, true).mapEl = true
 			add(grl.P(f+".MS").Idx(grl.LitStr(k)), grl.TString, true, true).mapEl = true
 		}
+		for k := int64(1); k <= 2; k++ {
+			add(grl.P(f+".MI").Idx(lit(k)), grl.TInt, true, true).mapEl = true
+		}
+		pi := add(grl.P(f+".AI").Idx(lit(0)), grl.TInt, false, true)
+		pi.ptrnum, pi.iface = true, true
+		pi = add(grl.P(f+".AI").Idx(lit(2)), grl.TFloat, false, true)
+		pi.ptrnum, pi.iface = true, true
+		pi = add(grl.P(f+".AI").Idx(lit(1)), grl.TString, false, true)
+		pi.iface, pi.wonly = true, true
 	}
 	for n := 0; n < g.Prof.PTopLevel/4+1; n++ {
 		add(grl.P("N"), grl.TInt, true, true).top = true
@@ -148,7 +160,7 @@ func (g *G) buildPaths() {
 
 func (g *G) pickPath(t grl.Type, needExact, needDest bool) *pathInfo {
 	ok := func(pi *pathInfo) bool {
-		if pi.t != t || (needExact && !pi.exact) || (needDest && !pi.dest) {
+		if pi.t != t || (needExact && !pi.exact) || (needDest && !pi.dest) || (pi.wonly && !g.allowWonly) {
 			return false
 		}
 		return true
@@ -180,7 +192,7 @@ func (g *G) pickPath(t grl.Type, needExact, needDest bool) *pathInfo {
 // a small in-range value most of the time.
 func (g *G) maybeComputedSel(pi *pathInfo) *grl.Path {
 	p := grl.ClonePath(pi.p)
-	if len(p.Steps) == 0 || pi.json || pi.top || !g.R.Chance(g.Prof.PComputedSel, 100) {
+	if len(p.Steps) == 0 || pi.json || pi.top || pi.iface || !g.R.Chance(g.Prof.PComputedSel, 100) {
 		return p
 	}
 	last := &p.Steps[len(p.Steps)-1]
@@ -283,6 +295,9 @@ func (g *G) Expr(t grl.Type, depth int, exact bool) *grl.Expr {
 				return grl.LitFloat(smallFloats[g.R.Intn(len(smallFloats))])
 			}
 			pi := g.pickPath(grl.TFloat, exact, false)
+			if pi.ptrnum {
+				return grl.Bin("*", grl.PathE(grl.ClonePath(pi.p)), lit(1)) // never a bare right-hand side
+			}
 			return grl.PathE(g.maybeComputedSel(pi))
 		}
 		switch g.R.Intn(6) {
@@ -323,6 +338,9 @@ func (g *G) Expr(t grl.Type, depth int, exact bool) *grl.Expr {
 		case 2:
 			return g.remember(t, grl.Bin("+", g.Expr(grl.TString, depth-1, false), g.Expr(grl.TInt, depth-1, false)))
 		case 3:
+			if g.R.Chance(1, 4) {
+				return g.remember(t, &grl.Expr{K: "vfn", L: g.atomStr(depth), Fn: "Replace", Args: []*grl.Expr{grl.LitStr(g.R.PickStr("a", "k", "x y", "")), grl.LitStr(g.R.PickStr("", "b", "kk"))}})
+			}
 			return g.remember(t, &grl.Expr{K: "vfn", L: g.atomStr(depth), Fn: g.R.PickStr("ToUpper", "ToLower", "Trim")})
 		case 4:
 			return g.remember(t, g.call(grl.TString, depth))
@@ -349,6 +367,17 @@ func (g *G) Expr(t grl.Type, depth int, exact bool) *grl.Expr {
 		case 7:
 			return g.remember(t, grl.Not(g.Expr(grl.TBool, depth-1, false)))
 		case 8:
+			switch g.R.Intn(5) {
+			case 0:
+				return g.remember(t, &grl.Expr{K: "vfn", L: g.atomStr(depth), Fn: "MatchString", Args: []*grl.Expr{grl.LitStr(g.R.PickStr("^a", "b$", "a.c", "k[12]", "^$", "x y", "[a-c]+", "T(a|e)g"))}})
+			case 1:
+				n := g.R.Range(1, 3)
+				args := make([]*grl.Expr, n)
+				for i := range args {
+					args[i] = g.Expr(grl.TString, 0, false)
+				}
+				return g.remember(t, &grl.Expr{K: "vfn", L: g.atomStr(depth), Fn: "In", Args: args})
+			}
 			fn := g.R.PickStr("Contains", "HasPrefix", "HasSuffix")
 			return g.remember(t, &grl.Expr{K: "vfn", L: g.atomStr(depth), Fn: fn, Args: []*grl.Expr{g.Expr(grl.TString, 0, false)}})
 		default:
@@ -398,7 +427,7 @@ func (g *G) vfnInt(depth int) *grl.Expr {
 		}
 		return &grl.Expr{K: "vfn", L: grl.PathE(grl.P(f + "." + c)), Fn: "Len"}
 	case 2:
-		return &grl.Expr{K: "vfn", L: g.atomStr(depth), Fn: g.R.PickStr("Index", "Count"), Args: []*grl.Expr{grl.LitStr(g.R.PickStr("a", "b", "k"))}}
+		return &grl.Expr{K: "vfn", L: g.atomStr(depth), Fn: g.R.PickStr("Index", "Count", "LastIndex"), Args: []*grl.Expr{grl.LitStr(g.R.PickStr("a", "b", "k"))}}
 	default:
 		return &grl.Expr{K: "vfn", L: g.atomStr(depth), Fn: "Compare", Args: []*grl.Expr{g.Expr(grl.TString, 0, false)}}
 	}
@@ -456,7 +485,21 @@ func (g *G) call(t grl.Type, depth int) *grl.Expr {
 
 // natural returns a boolean expression that fails to evaluate on most fact states.
 func (g *G) natural() *grl.Expr {
-	switch g.R.Intn(10) {
+	switch g.R.Intn(13) {
+	case 10: // a key of the wrong kind (and one that a loose conversion would turn into an existing key)
+		f := g.R.PickStr("F", "G")
+		switch g.R.Intn(3) {
+		case 0:
+			return grl.Bin(">=", grl.PathE(grl.P(f+".M").Idx(lit(65))), lit(0))
+		case 1:
+			return grl.Bin(">=", grl.PathE(grl.P(f+".MI").Idx(grl.LitFloat(g.R.PickStr2F(1.0, 2.75, 1.5)))), lit(0))
+		default:
+			return grl.Bin(">=", grl.PathE(grl.P(f+".MI").Idx(grl.LitStr("1"))), lit(0))
+		}
+	case 11:
+		return &grl.Expr{K: "vfn", L: grl.PathE(grl.P("F.S")), Fn: "MatchString", Args: []*grl.Expr{grl.LitStr(g.R.PickStr("a(", "[b", "*"))}} // invalid pattern
+	case 12:
+		return grl.Bin("==", grl.PathE(grl.P("F.MI").Idx(lit(g.R.PickInt64(0, 9, -1)))), lit(1)) // missing integer key
 	case 8:
 		return grl.Bin("==", grl.PathE(grl.P("F.A").Idx(grl.PathE(grl.P("F.S")))), lit(1)) // string selector on a slice
 	case 9:
@@ -518,7 +561,11 @@ func (g *G) assign(pi *pathInfo) *grl.Action {
 	}
 	dest := g.maybeComputedSel(pi)
 	if g.newKeys && pi.mapEl && g.R.Chance(25, 100) {
-		dest.Steps[len(dest.Steps)-1].Sel = grl.LitStr("k9")
+		if dest.Steps[len(dest.Steps)-1].Sel.LitK == "int" {
+			dest.Steps[len(dest.Steps)-1].Sel = lit(9)
+		} else {
+			dest.Steps[len(dest.Steps)-1].Sel = grl.LitStr("k9")
+		}
 		if op != "=" {
 			op = "="
 		}
@@ -607,7 +654,9 @@ func (g *G) destPath() *pathInfo {
 		if t == grl.TTime && !g.R.Chance(1, 4) {
 			continue
 		}
+		g.allowWonly = true
 		pi := g.pickPath(t, false, true)
+		g.allowWonly = false
 		if pi == nil {
 			continue
 		}
@@ -635,6 +684,22 @@ func (g *G) action(r *grl.Rule) *grl.Action {
 		return &grl.Action{K: "complete"}
 	case x < g.Prof.PRetract+g.Prof.PComplete+3:
 		return &grl.Action{K: "log", Text: "note " + r.Name}
+	case x < g.Prof.PRetract+g.Prof.PComplete+7 && x >= g.Prof.PRetract+g.Prof.PComplete+5:
+		// a side-effect-free call as a statement; its text is up for sharing with conditions and other rules
+		t := []grl.Type{grl.TInt, grl.TInt, grl.TFloat, grl.TString, grl.TBool}[g.R.Intn(5)]
+		var e *grl.Expr
+		if p := g.pool[t]; len(p) > 0 && g.R.Chance(1, 2) {
+			for _, c := range p {
+				if c.K == "call" {
+					e = grl.CloneExpr(c)
+					break
+				}
+			}
+		}
+		if e == nil {
+			e = g.remember(t, g.call(t, 1))
+		}
+		return &grl.Action{K: "eval", E: e}
 	case x < g.Prof.PRetract+g.Prof.PComplete+5:
 		// re-point the nested pointer to the spare object (which no rule reads or writes otherwise)
 		f := g.R.PickStr("F", "G")
@@ -670,6 +735,11 @@ func (g *G) fact() *grl.Fact {
 		MP: map[string]*grl.Sub{"k1": {X: r.PickInt64(smallInts...), Y: smallStrs[r.Intn(len(smallStrs))], Z: 0.75}, "k2": {X: r.PickInt64(smallInts...), Y: "m2", Z: 2.5}},
 		M:   map[string]int64{"k1": r.PickInt64(smallInts...), "k2": r.PickInt64(smallInts...)},
 		MS:  map[string]string{"k1": smallStrs[r.Intn(len(smallStrs))], "k2": "v"},
+		MI:  map[int64]int64{1: r.PickInt64(smallInts...), 2: r.PickInt64(smallInts...)},
+		AI:  []interface{}{r.PickInt64(smallInts...), smallStrs[r.Intn(len(smallStrs))], smallFloats[r.Intn(len(smallFloats))]},
+	}
+	if r.Chance(1, 3) {
+		f.M["A"] = r.PickInt64(smallInts...) // the key the rune conversion of 65 would hit
 	}
 	pn := r.PickInt64(smallInts...)
 	f.PN = &pn
